@@ -3,7 +3,7 @@
    REGENERATED from /repo on this run. *)
 From Coq Require Import List ZArith Bool String Lia.
 From RG.Base Require Import Outcome GoSlice.
-From RG.IR Require Import Val Print File RoundTrip Tables.
+From RG.IR Require Import Val Print File RoundTrip Tables Quote.
 From RGW Require Import Gen_IR Gen_LoadDiff Inst_IR.
 Import ListNotations.
 Local Open Scope Z_scope.
@@ -121,6 +121,17 @@ Print Assumptions C05_history_leaves_precompiled_values.
 Theorem C05_convert_sites_agree : gen_convert_site_load = gen_convert_site_precompile /\ gen_wrapper_diff = [].
 Proof. exact (conj gen_convert_sites_agree gen_wrappers_agree). Qed.
 Print Assumptions C05_convert_sites_agree.
+
+(* String quoting. The literal trees above carry DECODED strings; the decoding is Go's reading of an interpreted string
+   literal (unquote_go). It gives back the string for EVERY quoter that writes it piece by piece as a raw byte, a simple
+   escape, \xHH, \uXXXX or \UXXXXXXXX (whichever form for whichever piece -- strconv.Quote's choice follows the
+   unicode.IsPrint tables), and every byte string can be written that way. The check runs unquote_go on every distinct
+   token of the real irprint output. *)
+Theorem C05_string_literal_decoding :
+  (forall ds es, Forall2 piece ds es -> unquote_go (34 :: List.concat es ++ [34]) = Some (List.concat ds))
+  /\ (forall s, Forall (fun c => 0 <= c < 256) s -> unquote_go (34 :: List.concat (map quote_byte s) ++ [34]) = Some s).
+Proof. exact (conj unquote_pieces every_string_can_be_written). Qed.
+Print Assumptions C05_string_literal_decoding.
 
 (* non-vacuity *)
 Definition ex_fe : val :=
